@@ -63,6 +63,10 @@ type Conn struct {
 	msgReader      *msgReader
 	// readCloseFrameErr is set once a close frame has been read. Protected by readMu.
 	readCloseFrameErr error
+	// readErr is set once a read has failed because of a violation by the peer (of the
+	// protocol or of the read limit). Every later read fails with it: what is left of
+	// the offending frame must not be taken for further frames. Protected by readMu.
+	readErr error
 
 	// Write state.
 	msgWriter      *msgWriter
